@@ -1229,7 +1229,10 @@ def check_C03(tier, seed):
     pats += ['a*a', '(ab|ac)*', '(a|ab)c', '(a*b)*', 'a?a', '(ab)+a', 'a*b*a', '(a|b)*abb', '.*b', '[a-z]+[0-9]*', '(a{2}){3}', 'a{10}', '(a|b){4}c',
              '\\x41\\x7[\\x80-\\xff]'.replace('\\\\', '\\'), '/\\*.*\\*/'.replace('\\\\', '\\'), '"[^"]*"', '[_a-zA-Z][_a-zA-Z0-9]*', '0|[1-9][0-9]*', '1{2}3', '[0-9]+\\.[0-9]+'.replace('\\\\', '\\'),
              # escaped LETTERS denote themselves, upper and lower case alike (only a lower-case \\x starts a hex escape)
-             '\\X', 'a\\Xb+', '[\\Xa]', '[^\\X]', '\\A\\F', '[\\X41]', '\\y', '10', '20[0-9][0-9]']
+             '\\X', 'a\\Xb+', '[\\Xa]', '[^\\X]', '\\A\\F', '[\\X41]', '\\y', '10', '20[0-9][0-9]',
+             # a loop whose end state leaves on a byte to an END state while the loop's entry leaves on the same byte to a NON-end state:
+             # star()'s nested merge overwrites the flag, plus()'s keeps it (mutant m11 swaps the two)
+             '(ab|ca?)*', '(ab|ca?)+', '(abc|da?b?)*', '((ab|ca?)*d)*', '(ab|ca?)*a']
     for i in range(200 if tier == 'quick' else 3000):
         pats.append(rxl.random_pattern(rng, depth=rng.choice([2, 3, 4])))
     seen, jobs = set(), []
@@ -2293,8 +2296,15 @@ def check_C12(tier, seed):
             out.violations.append({'summary': {'pattern': pat_text(jobs[int(pid[1:])][1]), 'class': 'size analysis: ' + d['why'][0], 'detail': d['why']}, 'kind': 'rx', 'pattern': jobs[int(pid[1:])][1]})
     # ---- (b) lexer capacity = sum of the terms' sizes
     sets = list(lxl.FAMILIES) + lxl.enum_sets(2)[::3 if tier == 'quick' else 1]
+    # regex TERMS whose automaton is much larger than their text ({n} with a large count): the term's own capacity
+    # (regex_term::dfa_size, summed into the lexer's) has to follow the size analysis, not the length of the pattern
+    REP_SETS = [[lxl.R('a{9}'), lxl.C('x')], [lxl.R('[0-9]{12}'), lxl.R('[a-f]{7}x'), lxl.S('if')], [lxl.R('(ab){6}'), lxl.R('c{20}')]]
+    sets += REP_SETS
     ljobs = [('l%d' % i, ts, []) for i, ts in enumerate(sets)]
     lrecs, lcr, _ = lxl.run_lx(ljobs, 'C12lx')
+    if lcr:
+        for c in lcr[:3]:
+            out.violations.append({'summary': {'class': 'a lexer over well-formed terms cannot be built (the process died: capacity overrun)', 'terms': str(c)[:200]}, 'kind': 'lx', 'terms': []})
     litems, lref, lmodel, lstatic, st, tr, r2 = lx_items_check(lrecs, 'C12lxtlc', tlc_procs=4 if tier == 'quick' else 8)
     st_total += st; tr_total += tr; runs += r2
     for lid, d in lstatic.items():
@@ -2305,6 +2315,7 @@ def check_C12(tier, seed):
     # ... and lexers some of whose states send MOST byte values to one successor ('.', a negated set): the diagnostics list such
     # runs through buffers of their own
     lex_entries += [pipeline.lex_entry('capwide0', [lxl.R('.'), lxl.C('x')]), pipeline.lex_entry('capwide1', [lxl.R('"[^"]*"'), lxl.R('[\\x00-\\xff]x')])]
+    lex_entries += [pipeline.lex_entry('caprep%d' % i, ts) for i, ts in enumerate(REP_SETS)]
     # ---- (c) default LR caps, (d) custom limits around the need
     names = ['expr_strat', 'paren_list', 'closure_memo', 'lr1_not_lalr', 'nullable_prefix', 'else_in_else'] + ([] if tier == 'quick' else ['first_cycle', 'll_pal', 'two_lists', 'expr_amb', 'unit_chain'])
     base = [pipeline.gen_entry(cat[n], gid=n + '@deflim') for n in names]
@@ -2531,14 +2542,34 @@ def check_C13(tier, seed):
                                            'kind': 'parser', 'gname': e.g.name, 'mode': e.mode, 'gid': e.gid, 'dflt': [], 'lexterms': None, 'clex': False,
                                            'grammar': {'nts': e.g.nts, 'ts': e.g.ts, 'root': e.g.root, 'rules': e.g.rules, 'tprec': e.g.tprec, 'tassoc': e.g.tassoc},
                                            'bytes': list(b), 'ws': 1, 'nl': 1, 'verbose': 0, 'stream': 0, 'buf': 0})
+    shared = shared_functor_type(out, vlib.scratch('C13sf'))
     out.violations = out.violations[:12]
     out.coverage = base_coverage(res, {
+        'one_stateless_functor_type_on_plain_and_contextual_rules': shared,
         'grammars': len(entries), 'contextual_calls_validated': res.event_kinds.get('ccall', 0), 'plain_calls_validated': res.event_kinds.get('call', 0),
         'context_categories': ['none (parse)', 'non-const lvalue', 'const lvalue', 'rvalue', 'move-only lvalue', 'move-only rvalue'],
         'parse_vs_context_parse_comparisons': ncmp, 'bounds': {'L_all_inputs': L},
         'samples': sample_traces([e for e in entries if e.ctx], 3), 'exhaustive': False})
     out.assumptions = std_assumptions() + ['context identity = address comparison with the caller\'s object; constness from the deduced parameter type; caller-visible mutation counter read after the call']
     return out
+
+
+def shared_functor_type(out, work):
+    """harness/sharedftor.cpp: ONE stateless functor type attached with >= to some rules and >>= to others (same value types);
+    whether a reduction hands over the context is decided by the rule, for every word over 4 terms up to length 6"""
+    exe = os.path.join(work, 'sharedftor')
+    r = subprocess.run(['g++', '-std=c++17', '-O1', '-I' + os.path.join(vlib.REPO, 'include'), os.path.join(vlib.HARNESS, 'sharedftor.cpp'), '-o', exe], capture_output=True, text=True, timeout=900)
+    if r.returncode != 0:
+        out.violations.append({'summary': {'class': 'one functor type attached with >= and >>= in one grammar does not compile', 'compiler_says': r.stderr[:500]}, 'kind': 'helpers'})
+        return {'compiled': False}
+    rr = subprocess.run([exe], capture_output=True, text=True, timeout=600)
+    done = [ln.split() for ln in rr.stdout.splitlines() if ln.startswith('DONE')]
+    for ln in [l for l in rr.stdout.splitlines() if l.startswith('BAD')][:3]:
+        out.violations.append({'summary': {'class': 'one stateless functor type on a >= rule and a >>= rule: the context goes to the wrong calls', 'detail': ln[4:300]}, 'kind': 'helpers'})
+    if rr.returncode != 0 or not done:
+        out.violations.append({'summary': {'class': 'shared-functor-type program died', 'exit': rr.returncode}, 'kind': 'helpers'})
+        return {'compiled': True, 'completed': False}
+    return {'words': int(done[0][1]), 'functor_calls_compared': int(done[0][2]), 'grammars': 2}
 
 
 # ======================================================================================= C14
